@@ -14,7 +14,7 @@ RULE = ('case = one rule AST (C01 generator plus targeted shapes: look-ahead wil
         'Only paths the reference matcher (and the router) really match are used: the parameter assignment is what the match produced (converted values; named '
         '-> keyword, anonymous -> positional in order). Oracle: Route.url(*anon, **named) does not raise; on a router holding only that rule resolve(url) '
         'reaches the rule with the same named values; the reference matcher binds the same values for anonymous ones; the literal parts of the rule occur '
-        'verbatim and in order (the URL decomposes as L0 v1 L1 v2 ...). Cases with an empty binding are counted, not judged; float texts that str(float) '
+        'verbatim and in order (the URL decomposes as L0 v1 L1 v2 ...). Plus: two threads calling url() on the same fresh Route under every single-preemption schedule. Cases with an empty binding are counted, not judged; float texts that str(float) '
         'renders in exponent notation are the open finding K19 (excluded by construction, witness run separately). Non-trivial = >= 1 wildcard; distinct by '
         '(rule text, path).')
 ASSUMPTIONS = ['reference matcher vlib/rules.py is trusted', 'empty wildcard bindings are an unspecified zone (counted)',
@@ -36,6 +36,8 @@ def _val(draw, seg):
         return draw(st.one_of(st.sampled_from(R.VALUE_POOL['path']), st.lists(st.sampled_from(['a', 'b', 'end', 'le', 'x.y', 'é', '1']), min_size=1, max_size=4).map('/'.join)))
     return draw(st.one_of(st.sampled_from(R.VALUE_POOL[None]), st.text(st.characters(exclude_categories=['Cs'], exclude_characters='/'), min_size=1, max_size=6),
                           st.sampled_from(['a\rb', '\r', 'x\r', '\ry', 'a\nb', '\t', 'a\r\rb']),
+                          # text that Unicode normalisation (NFC / NFKC / case folding) would rewrite
+                          st.sampled_from(['e\u0301', 'a\u0308\u0323', '\u2126', '\u212b', '\uf900', '\ufb01', '\u1e9e', 'I\u0307', '\u00c5', 'A\u030a', '\u3000', '\uff21', 'ǅ']),
                           st.sampled_from(['a%20b', 'q?x=1', 'h#f', 'a b', '..', '.', '~', 'a+b', 'a=b&c', 'é', '%', 'a:b', '<x>', '{y}'])))
 
 
@@ -160,6 +162,50 @@ def check_case(ctx, case, witness=False):
         ctx.nontrivial(text + ' ' + path, sample={'rule': text, 'path': path, 'url': url, 'params': {k: repr(v) for k, v in named.items()}, 'positional': [repr(a) for a in anon]})
 
 
+def check_threaded(ctx, case):
+    """Two threads build a URL from the same fresh Route object (the first url() call of a route is where lazily built state would
+    be created): every single-preemption schedule, both results must round-trip."""
+    from ombott.router.radirouter import RadiRouter
+    from vlib.sched import Scheduler, BIG
+    from checks.c08_threads import relevant
+    ast = R.merge(case['ast'])
+    text = R.render(ast, case['choice'], case['spell'])
+    assigns = []
+    for path in case['paths']:
+        b = R.match(ast, path.strip('/'), False)
+        if b is None:
+            raise CheckFailure(f'threaded C19 case: {path!r} does not match {text!r}')
+        assigns.append(b)
+
+    def run(schedule):
+        router = RadiRouter()
+        route = router.add(text, 'GET', lambda **kw: kw)
+        res = {}
+
+        def mk(i):
+            def fn():
+                b = assigns[i]
+                res[i] = route.url(*[v for n, _, v in b if not n], **R.named(b))
+            return fn
+        sc = Scheduler([mk(0), mk(1)], schedule, relevant)
+        sc.run()
+        for i, e in enumerate(sc.errors):
+            if e is not None:
+                raise CheckFailure(f'thread {i}: Route({text!r}).url(...) raised {type(e).__name__}: {e} under schedule {schedule}')
+        for i in (0, 1):
+            b2 = R.match(ast, res[i].strip('/'), False)
+            if b2 is None or [v for _, _, v in b2] != [v for _, _, v in assigns[i]]:
+                raise CheckFailure(f'thread {i}: Route({text!r}).url(...) = {res[i]!r} while another thread was building a URL from the same route; assignment {assigns[i]!r}; '
+                                   f'schedule {schedule}')
+        ctx.evals += 1
+        ctx.nontrivial('thr:' + text + repr(schedule))
+        return sc.yields
+    y0 = run([[0, BIG]])[0]
+    for k in range(0, y0 + 1):
+        run([[0, k], [1, BIG], [0, BIG]])
+    ctx.count('threaded_single_preemption_schedules', y0 + 1)
+
+
 def witness_k19(ctx):
     case = {'ast': [['lit', '/'], ['w', 'x', 'float', None]], 'choice': [1], 'spell': 1, 'path': '/10000000000000000'}
     try:
@@ -189,6 +235,11 @@ def run(ctx):
     if ctx.shard == 0:
         ctx.guarded(lambda c, _: witness_k19(c), {'witness': 'K19'})
         ctx.guarded(lambda c, _: witness_negzero(c), {'witness': 'K19-int-negative-zero'})
+        lit = lambda t: ['lit', t]   # noqa
+        for ast, paths in (([lit('/left-'), ['w', 'x', 'float', None]], ['/left-2.5', '/left-7']),
+                           ([lit('/p/'), ['w', 'p', 'path', None], lit('/end/'), ['w', None, 'int', None]], ['/p/a/b/end/12', '/p/x/end/7']),
+                           ([lit('/'), ['w', 'a', None, None], lit('/'), ['w', 'b', 're', '[a-c]+'], lit('.html')], ['/tom/abc.html', '/é/a.html'])):
+            ctx.guarded(check_threaded, {'threaded': True, 'ast': ast, 'choice': [1], 'spell': 0, 'paths': paths})
     n = 4000 if ctx.tier == 'quick' else 50000
     ctx.hyp(case_st(), check_case, n)
 
@@ -196,4 +247,6 @@ def run(ctx):
 def replay(ctx, case):
     if 'witness' in case:
         return witness_negzero(ctx) if 'zero' in case['witness'] else witness_k19(ctx)
+    if 'threaded' in case:
+        return check_threaded(ctx, case)
     check_case(ctx, case)
